@@ -36,4 +36,6 @@ pub use lexer::buffer::{
 pub use lexer::channel::TokenChannel;
 pub use lexer::error;
 pub use lexer::token_type::TokenType;
+#[cfg(sas_lexer_verif)]
+pub use lexer::verif;
 pub use lexer::{lex_program, LexResult};
